@@ -44,7 +44,7 @@ Verdicts(e, r) ==
       b5 == IF e.a = "gen" /\ OpOf(e.op[1]) # ops'[Len(ops')].op THEN <<[l |-> l, kind |-> "op"]>> ELSE <<>>
   IN b1 \o b2 \o b3 \o b4 \o b5
 
-TStep == TC!TraceStep /\ bad' = bad \o Verdicts(Rec[l], Rec[l].r)
+TStep == TC!TraceStep /\ bad' = bad \o (IF Rec[l].a = "panic" THEN <<[l |-> l, kind |-> "panic"]>> ELSE Verdicts(Rec[l], Rec[l].r))
 
 TSpec == TInit /\ [][TStep]_tvars
 
